@@ -8,4 +8,5 @@ func init() {
 	commands["fnvec"] = fn.CmdVec
 	commands["fnsweep"] = fn.CmdSweep
 	commands["fnpiece"] = fn.CmdPiece
+	commands["fnevent"] = fn.CmdEvent
 }
